@@ -453,7 +453,12 @@ def run_plan(plan: dict) -> RunResult:
             s.name = entry.name
             if entry.type == "LLUDP":
                 res.probe("lludp_entry")
-                msg = entry.message
+                # (looked at through a copy: reading the logged message itself would parse its body, and whether a body
+                #  had been parsed before the entry was frozen is part of what is being tested)
+                import copy as _copy
+                if entry.message.raw_body is not None:
+                    res.probe("entry_logged_with_unparsed_body")
+                msg = _copy.deepcopy(entry.message)
                 d = msg.to_dict(extended=True)
                 s.extended = d
                 s.blocks = {bn: [dict(b) for b in bl] for bn, bl in d["body"].items()}
@@ -742,8 +747,31 @@ def run_plan(plan: dict) -> RunResult:
                           "headers": {}, "st": st})
 
         def op_disconnect(st):
+            import weakref as _wr
+            pp = world.proxy_protocol(viewer)
+            if pp is not None and state.get("proto_ref") is None:
+                state["proto_ref"] = _wr.ref(pp)
+            pp = None
             driver.op_disconnect(st)
             state["session_gone"] = True
+            # the connection's objects (protocol, deserializer, circuits) are really let go of: frozen entries must be
+            # self-contained
+            state["collect_at"] = loop.time() + 0.25
+
+        def maybe_collect():
+            if state.get("collect_at") is not None and loop.time() >= state["collect_at"]:
+                state["collect_at"] = None
+                import gc
+                gc.collect()
+                if state.get("proto_ref") is not None and state["proto_ref"]() is None:
+                    res.probe("connection_objects_collected")
+                else:
+                    res.probe("connection_objects_still_referenced")
+                    import os
+                    if os.environ.get("HSIM_DEBUG_REFS"):
+                        o = state["proto_ref"]()
+                        for r in gc.get_referrers(o):
+                            print("REFERRER", type(r).__name__, (repr(r)[:160] if not isinstance(r, dict) else sorted(map(str, r.keys()))[:12]))
 
         ops = {"inject": op_inject, "select": op_select, "filter": op_filter, "pause": op_pause, "clear": op_clear, "export": op_export, "http": op_http,
                "eq": op_eq, "disconnect": op_disconnect, "ucc": driver.op_ucc, "vsend": driver.op_vsend,
@@ -754,6 +782,7 @@ def run_plan(plan: dict) -> RunResult:
                 env.ab(st["op"], st.get("name", ""), len(model["ring"]) >= cfg["maxlen"])
                 if stopped:
                     return
+                maybe_collect()
                 ops[st["op"]](st)
                 if st["op"] in ("pause", "export"):
                     check_view(st["op"])
@@ -772,8 +801,29 @@ def run_plan(plan: dict) -> RunResult:
             check_view("periodic")
             t_next = round(t_next + 0.05, 4)
         loop.run_sim(until=end, max_iterations=400_000)
+        if state["session_gone"] and not stopped:
+            # let the closed connection's objects really go away, then look at what the log still holds
+            loop.run_sim(until=end + 0.3, max_iterations=400_000)
+            state["collect_at"] = loop.time()
+            maybe_collect()
         check_view("end")
         check_matches("end")
+        if not stopped:
+            seen_ = set()
+            for e in list(model["ring"]) + list(model["visible"]):
+                snap = snaps.get(id(e))
+                if id(e) in seen_ or snap is None or snap.type != "LLUDP":
+                    continue
+                seen_.add(id(e))
+                try:
+                    thawed = e.message.to_dict(extended=True)
+                except Exception as ex:
+                    violate("C18/thaw/raised", name=snap.name, exc=repr(ex)[:160], after="end")
+                    break
+                if not dicts_equal(thawed, snap.extended, ignore=("dropped",)):
+                    violate("C18/thaw/message-changed", name=snap.name, want=repr(snap.extended)[:300],
+                            got=repr(thawed)[:300], after="end", session_gone=state["session_gone"])
+                    break
         if not stopped:
             bad = [r for r in env.log.records if str(r.msg).startswith("Failed to filter queued message")]
             if bad:
